@@ -131,6 +131,12 @@ CHECKS = {
             "oracle: good clients' results, a NEW client is served afterwards, per-connection service instance/state/references/credentials, identifiers of one connection refused on another. All schedules with one deviation from the default are explored for representative scripts and for two clients authenticating concurrently.",
             "hostile bytes are a structured alphabet; pool sized above the number of never-finishing clients; forking server NOT covered (no process model); one recorded known finding (pool + client silent during authentication)",
             "E1+E4+E5", "DESIGN.md#c16"),
+    "C02": ("model_checking",
+            "explicit-state BFS over canonical target states x a ~170-operation alphabet per target kind, each (state, operation) applied through a proxy on a real connection pair and directly on a twin; exhaustive buffered-iteration parameter sweep",
+            "9 target kinds (list, dict, set, bytearray, deque, list-iterator, generator, binary file, user class with operators/properties/context manager) x 3 configuration modes; states reachable within depth 2 (quick) / 3 (thorough) with containers <= 3 items; "
+            "result (value+type or reference role), exception class and canonical post-state must agree with the twin. buffiter: all 1872 (length, chunk, factor, max_chunk) combinations and factor < 1.",
+            "operands are immutable values or target-side objects; restricted modes skip operations the policy itself refuses; `|` on proxies of built-in types without __or__ is a recorded known finding (4 target kinds)",
+            "E1+E3", "DESIGN.md#c02"),
 }
 
 NOT_APPLICABLE = {}
